@@ -41,6 +41,8 @@ def atom_set(a, var, domain):
             t, v = v, t
         if t == var:
             c = _int(v)
+            if c is None and v[0] == "lit" and isinstance(v[1], str):
+                c = v[1]
             if c is None:
                 return "unknown"
             s = {c} & full
